@@ -31,7 +31,7 @@ def main():
                 mod.gen_anchors()
         except Exception as e:  # noqa: BLE001
             print("anchors of %s: %s" % (p, e))
-    ok, out = vlib.coq_make(timeout=7200, per_file_timeout=3000, keep_going=True)
+    ok, out = vlib.coq_make(timeout=7200, per_file_timeout=1200, keep_going=True)
     print("\n".join(out.splitlines()[-15:]))
     failed = []
     for p in sorted(need):
